@@ -348,6 +348,26 @@ def build_text_cases(ctx):
               "20200101120000.000[+]", "20200101120000.000[5.3]", "20200101120000.000[5.300]", "２０２００１０１", "20200101120000.０００"):
         add(False, t)
         add(True, t[8:] if t[:8].isdigit() else t)
+    if ctx.thorough:
+        # small-scope exhaustive enumerators
+        for off in range(-720, 841):
+            for style in range(8):
+                for nm in (None, "EST"):
+                    add(False, "20240229235959.999" + spell_offset(rng, off, nm, style), False)
+                    add(False, "19991231235959" + spell_offset(rng, off, nm, style), False)
+                    add(True, "000000.000" + spell_offset(rng, off, nm, style), False)
+        ctx.exhaustive.append("every whole-minute offset -720..840 x 8 spellings x name/no name x {dt.ms, JPM dt, time}")
+        for y in (1900, 2000, 2023, 2024):
+            for mo in range(100):
+                for d in range(100):
+                    add(False, "%04d%02d%02d" % (y, mo, d), False)
+        ctx.exhaustive.append("every month/day digit pair 00..99 x 00..99 for years 1900, 2000, 2023, 2024 (date-only notation)")
+        for h in range(100):
+            for mi in (0, 59, 60, 99):
+                for sec in (0, 59, 60, 61, 99):
+                    add(False, "20200101%02d%02d%02d" % (h, mi, sec), False)
+                    add(True, "%02d%02d%02d" % (h, mi, sec), False)
+        ctx.exhaustive.append("every hour 00..99 x minutes {00,59,60,99} x seconds {00,59,60,61,99} (date-time and time)")
     # all single-character corruptions of sampled valid texts
     for _ in range(ctx.budget(14, 150)):
         off = rng.choice((-720, -330, -300, -30, 0, 30, 345, 840, rng.randint(-720, 840)))
